@@ -1,7 +1,7 @@
 ---- MODULE MC_Inherit ----
 EXTENDS Inherit
-Dc(ty, df, b, doc, k, an, inst) == [ty |-> ty, default |-> df, bounds |-> b, doc |-> doc, constant |-> k, an |-> an, inst |-> inst, incl |-> "U", meta |-> "U", nmeta |-> "U"]
-DcX(ty, df, b) == [ty |-> ty, default |-> df, bounds |-> b, doc |-> "U", constant |-> "U", an |-> "U", inst |-> "U", incl |-> "xx", meta |-> "U", nmeta |-> "U"]
+Dc(ty, df, b, doc, k, an, inst) == [ty |-> ty, default |-> df, bounds |-> b, doc |-> doc, constant |-> k, an |-> an, inst |-> inst, incl |-> "U", meta |-> "U", nmeta |-> "U", it |-> "U"]
+DcX(ty, df, b) == [ty |-> ty, default |-> df, bounds |-> b, doc |-> "U", constant |-> "U", an |-> "U", inst |-> "U", incl |-> "xx", meta |-> "U", nmeta |-> "U", it |-> "U"]
 DeclsT == {
   Dc("Parameter", "U", "U", "U", "U", "U", "U"),
   Dc("Parameter", "s", "U", "d1", "U", "U", "U"),
@@ -38,6 +38,10 @@ DeclsI == { Dc("Parameter", "s", "U", "U", "U", "U", "T"), Dc("Parameter", "5", 
             Dc("Parameter", "t3", "U", "U", "U", "U", "U"), Dc("Tuple", "U", "U", "U", "U", "U", "U"), Dc("Tuple", "t3", "U", "U", "U", "U", "U"),
             Dc("Number", "U", "U", "U", "U", "U", "U"), Dc("Integer", "U", "U", "U", "U", "U", "U"), Dc("Number", "U", "b02", "U", "U", "U", "U"),
             Dc("Parameter", "U", "U", "U", "U", "U", "U"), Dc("String", "U", "U", "U", "U", "U", "U"), Dc("Integer", "U", "U", "d1", "U", "U", "U") }
+DcL(df, it) == [Dc("List", df, "U", "U", "U", "U", "U") EXCEPT !.it = it]
+\* List with an item type: specified, left unspecified, or explicitly None (any type)
+DeclsL == { DcL("l1", "int"), DcL("U", "U"), DcL("ls", "U"), DcL("ls", "None"), DcL("U", "None"), DcL("U", "str"), DcL("l1", "U"),
+            Dc("Parameter", "U", "U", "U", "U", "U", "U") }
 ShapesAll == {"chain", "skip", "diamondBC", "diamondCB"}
 ShapesChain == {"chain", "skip"}
 ShapesDiamond == {"diamondBC", "diamondCB"}
